@@ -64,6 +64,7 @@ def pOp : P Op := fun ts => match ts with
   | "multi" :: ts => do let (p, ts) ← pPath ts; pure (.setMultiple p, ts)
   | "text" :: ts => do let (p, ts) ← pPath ts; pure (.setText p, ts)
   | "get" :: ts => do let (p, ts) ← pPath ts; let (n, ts) ← pName ts; pure (.get p n, ts)
+  | "move" :: ts => do let (p, ts) ← pPath ts; let (n, ts) ← pName ts; let (q, ts) ← pPath ts; pure (.move p n q, ts)
   | _ => none
 
 def pOpResult : P OpResult := fun ts => match ts with
@@ -90,6 +91,7 @@ def showOp : Op → String
   | .setMultiple p => s!"set_multiple({"/".intercalate (p.map showName)})"
   | .setText p => s!"set_text({"/".intercalate (p.map showName)})"
   | .get p n => s!"get_child({"/".intercalate (p.map showName)},{showName n})"
+  | .move p n q => s!"move({"/".intercalate (p.map showName)},{showName n} -> {"/".intercalate (q.map showName)})"
 
 /-- the property clauses of C16 about one step, evaluated on the implementation's trees before/after -/
 def opStepProp (before : Elem) (s : OpStep) : Verdict :=
